@@ -33,8 +33,12 @@ type h3Seen struct {
 	Hung     bool   `json:"hung,omitempty"`
 }
 
-func newH3Client() *req.Client {
-	return req.C().DisableAutoDecode().EnableInsecureSkipVerify().SetTimeout(25 * time.Second).EnableForceHTTP3()
+func newH3Client(decomp bool) *req.Client {
+	c := req.C().DisableAutoDecode().EnableInsecureSkipVerify().SetTimeout(25 * time.Second).EnableForceHTTP3()
+	if decomp {
+		c.EnableAutoDecompress().SetCommonHeader("Accept-Encoding", "gzip, deflate, br, zstd")
+	}
+	return c
 }
 
 // h3Exchange: request 1 (scripted), body read to the end, request 2 on the same client.
@@ -42,7 +46,7 @@ func newH3Client() *req.Client {
 // admits) are taken with io.ReadFull before the peer is allowed to reset the stream or close
 // the connection - RESET_STREAM / CONNECTION_CLOSE discard stream data not yet delivered, so
 // this is what makes "what was delivered before the error" a function of the script.
-func h3Exchange(srv *wire.H3Server, sc *wire.H3Script, sent []byte, expect int, auto, gate bool) (o h3Seen) {
+func h3Exchange(srv *wire.H3Server, sc *wire.H3Script, sent []byte, expect int, auto, gate, decomp bool) (o h3Seen) {
 	o.Mode = "manual"
 	if auto {
 		o.Mode = "auto"
@@ -54,7 +58,7 @@ func h3Exchange(srv *wire.H3Server, sc *wire.H3Script, sent []byte, expect int, 
 	}
 	srv.Register(id, sc)
 	defer srv.Unregister(id)
-	c := newH3Client()
+	c := newH3Client(decomp)
 	base := "https://" + srv.Addr() + "/x/" + id
 	done := make(chan struct{})
 	go func() {
@@ -156,6 +160,10 @@ type h3Gen struct {
 	trailers   bool
 	hdrCut     int
 	noHeaders  bool
+	coding     string    // content-coding of the DATA ("" = none; "gzip" = transparently requested)
+	plain      []byte    // the body before coding
+	coded      []byte    // the whole coded body (sent is the part of it that was written)
+	interim    [][]wire.Field
 }
 
 func (g *h3Gen) data(declared uint64, payload []byte) {
@@ -175,10 +183,34 @@ var h3Shapes = []string{"fin", "fin-early", "fin-midframe", "fin-midheader", "re
 	"connclose-midframe", "surplus-frame", "surplus-inframe", "zero-and-grease", "grease-cut", "trailers", "trailers-cut",
 	"no-headers", "hdr-cut", "fin", "fin-midframe", "data-after-trailers", "short-by-frame"}
 
-func genH3(rng *hk.Rand, shape string) *h3Gen {
+func genH3(rng *hk.Rand, shape string, round int) *h3Gen {
 	g := &h3Gen{shape: shape, end: "fin", cl: -1}
 	L := hk.Pick(rng, []int{0, 1, 2, 5, 63, 64, 100, 1000, 4096, 16383, 16384, 40000})
 	body := wire.GenBody(rng, L)
+	// interim responses in front of the final one, some declaring a length of their own
+	if shape != "no-headers" {
+		for x, n := 0, []int{0, 1, 0, 2, 0, 5}[round%6]; x < n; x++ {
+			blk := []wire.Field{{Name: ":status", Value: []string{"103", "102", "100"}[(x+round)%3]}, {Name: "link", Value: "</s.css>; rel=preload"}}
+			if (round+x)%2 == 0 {
+				blk = append(blk, wire.Field{Name: "content-length", Value: fmt.Sprint(1 + (round+x)%7)})
+			}
+			g.interim = append(g.interim, blk)
+		}
+	}
+	// content-coding of the DATA (the caller gets the decoded body)
+	codedShape := map[string]bool{"fin": true, "fin-early": true, "fin-midframe": true, "fin-midheader": true, "reset": true,
+		"connclose": true, "short-by-frame": true, "grease-cut": true, "zero-and-grease": true, "trailers": true, "trailers-cut": true, "surplus-frame": true}
+	if round%3 == 1 && codedShape[shape] {
+		g.coding = []string{"gzip", "deflate", "br", "zstd", "gzip-auto"}[(round/3)%5]
+		if L == 0 {
+			L = 5
+			body = wire.GenBody(rng, L)
+		}
+		g.plain = body
+		body = wire.Encode(strings.TrimSuffix(g.coding, "-auto"), g.plain)
+		g.coded = body
+		L = len(body)
+	}
 	pieces := wire.Partition(rng, body, L <= 64 && rng.Chance(20), 8)
 	g.clMode = []string{"exact", "none", "more", "less", "exact"}[rng.Intn(5)]
 	keep := len(pieces)
@@ -197,7 +229,8 @@ func genH3(rng *hk.Rand, shape string) *h3Gen {
 		mid = true
 	case "reset", "connclose":
 		g.end = shape
-		if rng.Chance(60) && len(pieces) > 0 {
+		if rng.Chance(60) && len(pieces) > 0 && g.coding == "" {
+			// (a coded stream arrives whole: the fault lies behind its last byte)
 			keep = rng.Intn(len(pieces) + 1)
 		}
 	case "reset-midframe", "connclose-midframe":
@@ -322,7 +355,7 @@ func runH3(r *hk.Run, rng *hk.Rand) {
 		return
 	}
 	defer srv.Close()
-	n := r.Scale(200, 4000)
+	n := r.Scale(300, 4000)
 	type job struct {
 		g    *h3Gen
 		auto bool
@@ -330,7 +363,7 @@ func runH3(r *hk.Run, rng *hk.Rand) {
 	}
 	jobs := make([]*job, n)
 	for i := range jobs {
-		jobs[i] = &job{g: genH3(rng, h3Shapes[i%len(h3Shapes)]), auto: i%7 == 6}
+		jobs[i] = &job{g: genH3(rng, h3Shapes[i%len(h3Shapes)], i/len(h3Shapes)), auto: i%7 == 6}
 	}
 	sem := make(chan struct{}, 6)
 	done := make(chan struct{}, n)
@@ -340,7 +373,10 @@ func runH3(r *hk.Run, rng *hk.Rand) {
 			defer func() { <-sem; done <- struct{}{} }()
 			g := j.g
 			sc := &wire.H3Script{Status: 200, Fields: []wire.Field{{Name: "content-type", Value: "application/octet-stream"}},
-				Actions: g.actions, End: g.end, HdrCut: g.hdrCut}
+				Actions: g.actions, End: g.end, HdrCut: g.hdrCut, Interim: g.interim}
+			if g.coding != "" {
+				sc.Fields = append(sc.Fields, wire.Field{Name: "content-encoding", Value: strings.TrimSuffix(g.coding, "-auto")})
+			}
 			if g.cl >= 0 {
 				sc.Fields = append(sc.Fields, wire.Field{Name: "content-length", Value: fmt.Sprint(g.cl)})
 			}
@@ -357,7 +393,15 @@ func runH3(r *hk.Run, rng *hk.Rand) {
 			if g.cl >= 0 && g.cl < expect {
 				expect = g.cl
 			}
-			j.o = h3Exchange(srv, sc, g.sent, expect, j.auto, !j.auto && g.end != "fin" && !g.noHeaders && g.hdrCut == 0)
+			ref := g.sent
+			if g.coding != "" {
+				// the decoder can hand out the whole body once the whole coded stream is there
+				ref, expect = g.plain, 0
+				if len(g.sent) >= len(g.coded) && (g.cl < 0 || g.cl >= len(g.coded)) {
+					expect = len(g.plain)
+				}
+			}
+			j.o = h3Exchange(srv, sc, ref, expect, j.auto, !j.auto && g.end != "fin" && !g.noHeaders && g.hdrCut == 0, g.coding != "" && g.coding != "gzip")
 		}(j)
 	}
 	for range jobs {
@@ -366,11 +410,22 @@ func runH3(r *hk.Run, rng *hk.Rand) {
 	for _, j := range jobs {
 		g, o := j.g, j.o
 		sig := fmt.Sprintf("h3:%s:end-%s:cl-%s:%s", g.shape, g.end, g.clMode, o.Mode)
+		ref := g.sent
+		if g.coding != "" {
+			ref = g.plain
+			sig += ":coded-" + g.coding
+			r.Count("h3.coding=" + g.coding)
+		}
+		if len(g.interim) > 0 {
+			sig += fmt.Sprintf(":interim-%d", len(g.interim))
+		}
+		r.Count(fmt.Sprintf("h3.interim=%d", len(g.interim)))
 		r.Count("h3.shape=" + g.shape)
 		r.Count("h3.end=" + g.end)
 		r.Count("h3.cl=" + g.clMode)
 		in := map[string]interface{}{"shape": g.shape, "end": g.end, "content_length": g.cl, "data_bytes_written": len(g.sent),
-			"stream_bytes_behind_headers": len(g.wire), "frames": len(g.actions), "mode": o.Mode, "stream_head": fmt.Sprintf("%x", trunc(g.wire, 48))}
+			"stream_bytes_behind_headers": len(g.wire), "frames": len(g.actions), "mode": o.Mode, "stream_head": fmt.Sprintf("%x", trunc(g.wire, 48)),
+			"coding": g.coding, "plain_len": len(g.plain), "interim_blocks": g.interim}
 		success := o.CallErr == "" && o.ReadErr == ""
 		headers := !g.noHeaders && g.hdrCut == 0
 		consistent := headers && g.complete && (g.cl < 0 || g.cl == len(g.sent))
@@ -384,7 +439,7 @@ func runH3(r *hk.Run, rng *hk.Rand) {
 			r.Fail(hk.Failure{Sig: "h3:bad-message-success:" + sig, What: "a stream that ended / was reset / was closed before the message was complete, or whose DATA total differs from content-length, was reported as success", Input: in, Got: o, Want: "an error from the call or from reading the body"})
 		case success && !consistent && undetectable:
 			r.Count("h3.fin-at-frame-boundary-without-length-undetectable")
-		case success && (o.DLen != len(g.sent) || !o.PrefixOK):
+		case success && (o.DLen != len(ref) || !o.PrefixOK):
 			r.Fail(hk.Failure{Sig: "h3:wrong-body:" + sig, What: "success with a body different from what the origin sent", Input: in, Got: o})
 		case !success && consistent:
 			r.Fail(hk.Failure{Sig: "h3:complete-failed:" + sig, What: "a complete, consistent response was reported as an error", Input: in, Got: o})
@@ -392,7 +447,7 @@ func runH3(r *hk.Run, rng *hk.Rand) {
 		if !o.PrefixOK {
 			r.Fail(hk.Failure{Sig: "h3:not-prefix:" + sig, What: "delivered bytes are not a prefix of the DATA the origin sent", Input: in, Got: o})
 		}
-		if g.cl >= 0 && o.DLen > g.cl {
+		if g.cl >= 0 && o.DLen > g.cl && g.coding == "" {
 			r.Fail(hk.Failure{Sig: "h3:more-than-declared:" + sig, What: "more body bytes delivered than the declared content-length", Input: in, Got: o})
 		}
 		if !o.FollowOK && !o.Hung {
@@ -419,10 +474,14 @@ func runH3(r *hk.Run, rng *hk.Rand) {
 				seen = fmt.Sprintf("(H3SeenRead %s %s %s)", cls, hk.CoqN(uint64(o.DLen)), hk.CoqBool(o.PrefixOK))
 			}
 			end := map[string]string{"fin": "EndFin", "reset": "EndReset", "connclose": "EndConnClose"}[g.end]
-			coq = fmt.Sprintf("H3Case %s %s %s %s %s %s %s %s", hk.CoqOpt(g.cl >= 0, hk.CoqN(uint64(max(g.cl, 0)))), hk.CoqBool(!headers),
-				hk.CoqList(parens(g.segs)), end, coqBig(g.sent), hk.CoqN(uint64(len(g.wire))), seen, hk.CoqBool(o.SameConn))
+			codedOpt := "None"
+			if g.coding != "" {
+				codedOpt = fmt.Sprintf("(Some (%s, %s, %s))", coqCoding(g.coding), hk.CoqN(uint64(len(g.coded))), hk.CoqN(uint64(len(g.plain))))
+			}
+			coq = fmt.Sprintf("H3Case %s %s %s %s %s %s %s %s %s", coqBlocks(g.interim, 200, g.cl), hk.CoqBool(!headers),
+				hk.CoqList(parens(g.segs)), end, codedOpt, coqBig(g.sent), hk.CoqN(uint64(len(g.wire))), seen, hk.CoqBool(o.SameConn))
 		}
 		r.Add(hk.Case{Coq: coq, Desc: map[string]interface{}{"kind": "h3", "script": in, "seen": o}},
-			fmt.Sprintf("h3|%s|%s|%d|%x|%d|%s", g.shape, g.end, g.cl, g.wire, g.hdrCut, o.Mode), !consistent)
+			fmt.Sprintf("h3|%s|%s|%d|%x|%d|%s|%s|%d", g.shape, g.end, g.cl, g.wire, g.hdrCut, o.Mode, g.coding, len(g.interim)), !consistent)
 	}
 }
